@@ -50,7 +50,8 @@ StepClauses(T, i, j) ==
       post == TabOf(e.tabs[j])
       exact == T.mode = "exact"
   IN  \* C08/C17: the game object follows the specification's action (refinement)
-      Fail("C08", "Refine_" \o e.op, j, exact => post = Apply(T, e, j, pre))
+      UNION { Fail(p, "NoException_" \o e.op, j, e.tabs[j].exc = "") : p \in Props }
+      \cup Fail("C08", "Refine_" \o e.op, j, (exact /\ e.tabs[j].exc = "") => post = Apply(T, e, j, pre))
       \cup Fail("C01", "KnownExact", j, T.hasHidden = 1 => KnownExact(post, Arr(T.hidden)))
 
 \* ---- clauses evaluated after compute_bounds, for object j --------------------------------
@@ -122,8 +123,9 @@ GrowClauses(T, i, j) ==
 
 Failures(T, i) ==
   UNION { StepClauses(T, i, j)
-          \cup (IF T.events[i].op = "compute" THEN ComputeClauses(T, i, j) ELSE {})
-          \cup (IF T.events[i].op = "compute" /\ lc > 0 THEN GrowClauses(T, i, j) ELSE {})
+          \cup (IF T.events[i].op = "compute" /\ T.events[i].tabs[j].exc = "" THEN ComputeClauses(T, i, j) ELSE {})
+          \cup (IF T.events[i].op = "compute" /\ lc > 0 /\ T.events[i].tabs[j].exc = "" /\ T.events[lc].tabs[j].exc = ""
+                 THEN GrowClauses(T, i, j) ELSE {})
           : j \in 1..NObj(T) }
 
 TraceInit == tid \in 1..Len(Traces) /\ l = 0 /\ lc = 0
